@@ -1,0 +1,40 @@
+//go:build verif
+
+// Contracts for package acl, checked by /verif (govc). This file is
+// comment-only: it adds no code under any build tag.
+
+package acl
+
+//@ pred ruleAllowsP(r *Rule, action Action, secret string) {
+//@   (exists j int :: 0 <= j && j < len(r.Action) && r.Action[j] == action) &&
+//@   (exists k int :: 0 <= k && k < len(r.Secret) && globMatch(str(r.Secret[k]), secret)) }
+//@ pred ruleAllows(rr Rules, i int, action Action, secret string) {
+//@   (exists j int :: 0 <= j && j < len(rr[i].Action) && rr[i].Action[j] == action) &&
+//@   (exists k int :: 0 <= k && k < len(rr[i].Secret) && globMatch(str(rr[i].Secret[k]), secret)) }
+//@ pred allows(rr Rules, action Action, secret string) {
+//@   exists i int :: 0 <= i && i < len(rr) && ruleAllows(rr, i, action, secret) }
+
+//@ func (Secret).Match(pat, val) (res)
+//@   ensures [C07 match.glob] res == globMatch(str(pat), val)
+//@   loop 0
+//@     invariant [quoted] forall j int :: 0 <= j && j < iter ==> parts[j] == quote(seqNth(split(str(pat), "*"), j))
+//@     invariant [unquoted] forall j int :: iter <= j && j < len(parts) ==> parts[j] == seqNth(split(str(pat), "*"), j)
+//@     invariant [length] len(parts) == seqLen(split(str(pat), "*"))
+
+//@ func (Rules).Allow(rr, action, secret) (res)
+//@   ensures [C01,C07 allow.iff-single-rule] res == allows(rr, action, secret)
+//@   loop 0
+//@     invariant [none-so-far] forall i int :: 0 <= i && i < iter ==> !ruleAllows(rr, i, action, secret)
+
+//@ func (*Rule).Allow(r, action, secret) (res)
+//@   requires r != nil
+//@   ensures [C07 rule.iff] res == ruleAllowsP(r, action, secret)
+
+//@ func (*Rule).Allow$1(acts) (res)
+//@   inline
+//@   loop 0
+//@     invariant [no-action-yet] forall j int :: 0 <= j && j < iter ==> acts[j] != action
+//@ func (*Rule).Allow$2(secs) (res)
+//@   inline
+//@   loop 0
+//@     invariant [no-match-yet] forall k int :: 0 <= k && k < iter ==> !globMatch(str(secs[k]), secret)
